@@ -13,7 +13,8 @@
 //   P sel px py pz dx dy dz tau w energy s_0 .. s_{NIONS-1}
 //        sel = 0: start in get_subgrid(position); sel = k > 0: in its copy number ((k-1) mod ncopies)+1 (the original if none)
 // answer to P:
-//   T <absorbed|escaped|fuel|err> <ncalls> px py pz tau                  packet at the end
+//   T <absorbed|escaped|fuel|err> <ncalls> px py pz tau                  packet at the end (fuel: more than 1200 calls; only the
+//                                                                        first 64 S lines are printed then)
 //   S <sub> <input> px py pz tau  rx ry rz  i j k  <out> qx qy qz tau'   one per interact call: packet before the call, what the
 //        first lines of interact compute (position - _anchor after update_photon_position; get_start_index), returned
 //        direction, packet after the call
@@ -38,7 +39,8 @@
 
 typedef DensitySubGridCreator< DensitySubGrid > Creator;
 
-static const long MAXCALLS = 4000;
+static const long MAXCALLS = 1200;   // interact calls per packet ('fuel' beyond)
+static const long FUELSHOWN = 64;    // a packet that ends with 'fuel' prints only its first FUELSHOWN calls
 
 static double b2d(uint64_t b) { double d; std::memcpy(&d, &b, 8); return d; }
 static uint64_t d2b(double d) { uint64_t b; std::memcpy(&b, &d, 8); return b; }
@@ -171,6 +173,7 @@ int main(int argc, char **argv) {
       // SourceDiscretePhotonTaskContext / SourceContinuousPhotonTaskContext: subgrid of the position, direction INSIDE
       size_t igrid = creator->get_subgrid(photon.get_position()).get_index();
       std::string steps;
+      size_t shown = std::string::npos;
       const char *end = "err";
       long ncalls = 0;
       if (igrid < ns) {
@@ -191,6 +194,8 @@ int main(int argc, char **argv) {
             break;
           }
           DensitySubGrid &g = *creator->get_subgrid(igrid);
+          if (ncalls == FUELSHOWN)
+            shown = steps.size();
           steps += "S";
           in(steps, (long)igrid);
           in(steps, (long)input);
@@ -236,6 +241,8 @@ int main(int argc, char **argv) {
       hx(t, photon.get_target_optical_depth());
       fputs(t.c_str(), stdout);
       fputs("\n", stdout);
+      if (std::string(end) == "fuel" && shown != std::string::npos)
+        steps.resize(shown);
       fputs(steps.c_str(), stdout);
       // estimators: every (subgrid, cell) that changed, then back to 0
       std::string e;
